@@ -43,7 +43,7 @@ func readOnly(x, y *apd.Decimal) []string {
 	}
 	if x.Exponent < 400 && x.Exponent > -400 {
 		f, _ := x.Float64()
-		out = append(out, fmt.Sprint(f), x.Text('f'))
+		out = append(out, fmt.Sprint(f), x.Text('f'), fmt.Sprintf("%024v|%24v|%-24G|%+.0e", x, x, x, x))
 	}
 	return out
 }
@@ -64,7 +64,8 @@ func init() {
 			c := g.R.randCtxL(14)
 			ctxs = append(ctxs, c)
 		}
-		ctxs = append(ctxs, Ctx{P: 3, Emin: -2, Emax: 3, R: "half_even"}, Ctx{P: 0, Emin: -100000, Emax: 100000})
+		ctxs = append(ctxs, Ctx{P: 3, Emin: -2, Emax: 3, R: "half_even"}, Ctx{P: 0, Emin: -100000, Emax: 100000},
+			Ctx{P: 400, Emin: -100000, Emax: 100000, R: "down"}) // wide enough for rescaling by more than 10^128
 		ops := []string{"add", "sub", "mul", "quo", "quoint", "rem", "cmp", "abs", "neg", "round", "quantize", "tointx", "tointv",
 			"ceil", "floor", "reduce", "sqrt", "cbrt", "exp", "ln", "log10", "pow"}
 		rounds := g.pick(6, 120)
@@ -82,12 +83,19 @@ func init() {
 			cases := make([]concCase, ncase)
 			for i := range cases {
 				cc := concCase{op: ops[g.R.Intn(len(ops))], ci: g.R.Intn(len(sc)), xi: g.R.Intn(len(sx)), yi: g.R.Intn(len(sx)), q: g.R.between(-3, 3)}
+				if cc.op == "quantize" && g.R.Intn(3) == 0 { // pad by more than 128 digits (beyond the power-of-ten table)
+					cc.ci = len(sc) - 1
+					cc.q = -[]int{140, 200, 300}[g.R.Intn(3)]
+				}
+				if (cc.op == "add" || cc.op == "sub" || cc.op == "cmp") && g.R.Intn(6) == 0 {
+					cc.ci = len(sc) - 1 // exponent gaps beyond the table as well
+				}
 				switch cc.op {
 				case "exp", "ln", "log10", "pow", "sqrt", "cbrt": // keep the iterative functions cheap: small operands only
 					cc.xi = g.R.Intn(10)
 					cc.yi = g.R.Intn(10)
-					if sc[cc.ci].Precision == 0 {
-						cc.ci = 0
+					if sc[cc.ci].Precision == 0 || sc[cc.ci].Precision > 40 {
+						cc.ci = g.R.Intn(6)
 					}
 				}
 				cases[i] = cc
